@@ -9,6 +9,24 @@ NOTE = ("Trusted: Lean 4.33 kernel (axioms propext/Classical.choice/Quot.sound o
         "are reached only through that execution. ")
 
 CHECKS = {
+    "C01": dict(
+        engine="typing", design_ref="DESIGN.md §6 C01",
+        technique="Lean 4 theorem by mutual structural induction over expression trees of any depth (Typing.taint_preserved) instantiated on a verdict table REGENERATED from the C++ compiler on every run (translator gen/typing_table.py; table obligations by decide +kernel) + compositional spot check compiler vs model typeOf",
+        text=("Proof: C01_taint_preserved (for every expression tree over the wrapper API -- 69 unary/conversion/member/cast rules, 21 binary operators, leaves of 7 wrapper kinds x 14 type kinds, ANY depth -- "
+              "if it compiles and still carries sandbox data its type is not plain, unless the step is a named unwrapper, a null test of a tainted pointer or is_unregistered), C01_hint (comparisons with "
+              "sandbox-resident data or hints yield only hints), C01_hint_not_verifiable, C01_opaque_inert, C01_no_raw_access. The single-step table (12k translation units: accept/reject and decltype of the result) "
+              "is regenerated from g++ on the current headers each run and the table obligations table_safe / table_ops_nonvoid are re-proved by the kernel; a broken obligation is located as a concrete translation unit. "
+              "Compositionality is spot-checked on random depth-2..4 trees judged by the compiler against the model's typeOf."),
+        note=NOTE + "Trusted: g++ 12 front end as the judge; the enumeration of forms in the translator; value categories are abstracted (rows use lvalue operands). Forms outside the enumerated rules are not covered."),
+    "C02": dict(
+        engine="typing", design_ref="DESIGN.md §6 C02",
+        technique="Lean 4: decide +kernel over a sink-shape verdict table REGENERATED from the C++ compiler on every run (shape list fixed in the theorem file) + theorems on the checked entry points' membership test + differential execution of the entry points for every address class",
+        text=("Proof: C02_forbidden_rejected / C02_forbidden_rejected_wide_ptr (each of the 66 forbidden shapes -- raw pointer, function pointer, pointer array, other-sandbox wrapper into tainted / tainted_volatile / "
+              "struct field / array element / invoke argument / callback signature / callback or function-address store -- is present in the regenerated table and rejected, for a target sandbox with 32-bit and with "
+              "application-width guest pointers), C02_controls_accepted (permitted neighbours compile), C02_checked_entry, C02_checked_entry_aborts, C02_null_refused, C02_other_sandbox_refused, C02_checked_entry_vol "
+              "(assign_raw_pointer / UNSAFE_accept_pointer accept exactly the addresses inside that sandbox and keep the address). Tied to the code by the regenerated table and by ~1000 entry-point ops "
+              "(4 flavours x 2 live sandboxes x null/heap/stack/absolute/own/other region incl. both ends). Two genuine defects found here were repaired (db76c35, 7efba4e)."),
+        note=NOTE + "Trusted: g++ 12 front end as the judge; shapes outside the enumerated list are not covered."),
     "C06": dict(
         engine="conv", design_ref="DESIGN.md §6 C06",
         technique="Lean 4 theorem over all integer type pairs and values (case split + omega) + differential execution vs model driver + 128-bit oracle",
@@ -171,7 +189,7 @@ def main():
             "source_commits": [],
             "add_only": True,
         },
-        "engines": [{"name": e, "path": f"harness/h_{e}.cpp + lean/Driver", "serves_properties": sorted(ps),
+        "engines": [{"name": e, "path": ("gen/typing_table.py + lean/Driver/TypingEng.lean" if e == "typing" else f"harness/h_{e}.cpp + lean/Driver"), "serves_properties": sorted(ps),
                      "kind_free_text": "line-protocol differential engine (C++ harness on real headers vs Lean model driver)"} for e, ps in sorted(engines.items())],
         "checks": checks,
         "not_applicable": na,
